@@ -219,3 +219,92 @@ func VerifAcl6() {
 	nondet.Assert(got == same, "an IPv6 entry without a mask does not match exactly its own address")
 	nondet.Cover("checked")
 }
+
+// ---- IPv6 family: the same longest-prefix rule over 128-bit addresses
+
+type aclNet6 struct {
+	ip   string
+	mask int // -1: no mask written (single host)
+	a    [16]byte
+	bits int
+}
+
+var aclNets6 = []aclNet6{
+	{"::", 0, [16]byte{}, 0},
+	{"2001:db8::", 32, [16]byte{0x20, 0x01, 0x0d, 0xb8}, 32},
+	{"2001:db8:1::", 48, [16]byte{0x20, 0x01, 0x0d, 0xb8, 0, 1}, 48},
+	{"2001:db8:1:2::", 64, [16]byte{0x20, 0x01, 0x0d, 0xb8, 0, 1, 0, 2}, 64},
+	{"2001:db8:1:2::3", -1, [16]byte{0x20, 0x01, 0x0d, 0xb8, 0, 1, 0, 2, 0, 0, 0, 0, 0, 0, 0, 3}, 128},
+	{"2001:db8:1:2::3", 128, [16]byte{0x20, 0x01, 0x0d, 0xb8, 0, 1, 0, 2, 0, 0, 0, 0, 0, 0, 0, 3}, 128},
+	{"fe80::", 10, [16]byte{0xfe, 0x80}, 10},
+	{"2001:db8:1:2::2", 127, [16]byte{0x20, 0x01, 0x0d, 0xb8, 0, 1, 0, 2, 0, 0, 0, 0, 0, 0, 0, 2}, 127},
+}
+
+func aclContains6(n aclNet6, ip [16]byte) bool {
+	full, rest := n.bits/8, n.bits%8
+	for i := 0; i < full; i++ {
+		if ip[i] != n.a[i] {
+			return false
+		}
+	}
+	if rest > 0 {
+		m := byte(0xff) << uint(8-rest)
+		if ip[full]&m != n.a[full]&m {
+			return false
+		}
+	}
+	return true
+}
+
+// VerifAcl6Family: every 128-bit address (IPv4-mapped ones excluded) against
+// E entries chosen symbolically, with symbolic negation, from a nested IPv6
+// family (/0, /10, /32, /48, /64, /127, /128 and a host without a mask).
+func VerifAcl6Family() {
+	e := nondet.Param("E")
+	m := func() *ast.Meta { return &ast.Meta{} }
+	var ip [16]byte
+	b := nondet.Bytes("ip", 16)
+	copy(ip[:], b)
+	var lead byte
+	for i := 0; i < 10; i++ {
+		lead |= ip[i]
+	}
+	nondet.Assume(!(lead == 0 && ip[10] == 0xff && ip[11] == 0xff)) // not an IPv4-mapped address
+	decl := &ast.AclDeclaration{Meta: m(), Name: &ast.Ident{Meta: m(), Value: "a"}}
+	names := []string{"e0", "e1", "e2", "e3"}
+	best, bestNeg := -1, false
+	conflict := false
+	for k := 0; k < e; k++ {
+		n := aclNets6[nondet.Choice(names[k], len(aclNets6))]
+		neg := nondet.Bool(names[k] + "_neg")
+		c := &ast.AclCidr{Meta: m(), IP: &ast.IP{Meta: m(), Value: n.ip}}
+		if n.mask >= 0 {
+			c.Mask = &ast.Integer{Meta: m(), Value: int64(n.mask)}
+		}
+		if neg {
+			c.Inverse = &ast.Boolean{Meta: m(), Value: true}
+		}
+		decl.CIDRs = append(decl.CIDRs, c)
+		if aclContains6(n, ip) {
+			if n.bits > best {
+				best, bestNeg, conflict = n.bits, neg, false
+			} else if n.bits == best && neg != bestNeg {
+				conflict = true
+			}
+		}
+	}
+	if conflict {
+		return
+	}
+	want := best >= 0 && !bestNeg
+	addr := make(net.IP, 16)
+	copy(addr, ip[:])
+	got, err := matchesAcl(value.Acl{Value: decl}, addr)
+	nondet.Observe("result", got, err != nil)
+	nondet.Assert(err == nil, "matching a well-formed IPv6 ACL fails")
+	if err != nil {
+		return
+	}
+	nondet.Assert(got == want, "the IPv6 ACL match is not decided by the longest containing prefix and its negation")
+	nondet.Cover("checked")
+}
